@@ -106,7 +106,14 @@ def shards(tier):
     n = 2000
     from ..pipelines import pipelines
 
-    extra = [Shard(f"pipelines-{i}", check_pipeline, strategy=pipelines(3 if tier == "quick" else 4), n=1500,
+    # "large" shards: more sources / longer inputs than Hypothesis' size distribution reaches by itself
+    large = [Shard(f"large-{name}", check, strategy=base_case(name, max_len=7, max_src=8, min_src=5, min_len=1),
+                   n=500, nontrivial=nontrivial, classify=classify, thorough_mult=15)
+             for name in ("merge", "zip", "zip_longest", "chain")]
+    large += [Shard(f"large-{name}", check, strategy=base_case(name, max_len=30, min_len=12),
+                    n=300, nontrivial=nontrivial, classify=classify, thorough_mult=15)
+              for name in ("islice", "batched", "tee", "cycle", "pairwise", "accumulate", "takewhile", "dropwhile")]
+    extra = large + [Shard(f"pipelines-{i}", check_pipeline, strategy=pipelines(3 if tier == "quick" else 4), n=1500,
                    nontrivial=lambda c: len(c["items"]) >= 2, thorough_mult=15) for i in range(4)]
     return extra + [
         Shard(name, check, strategy=cases(name, tier),
